@@ -34,13 +34,22 @@ class ModesTaint:
     def __init__(self, fn: FuncInfo, tainted_params: Set[str]):
         self.fn = fn
         self.t: Set[str] = set(tainted_params)
+        self.comp: Set[str] = set()
         changed = True
         while changed:
             changed = False
             for n in walk_no_nested(fn.node):
+                tgt = val = None
                 if isinstance(n, ast.Assign) and len(n.targets) == 1 and isinstance(n.targets[0], ast.Name):
-                    if n.targets[0].id not in self.t and self.derived(n.value):
-                        self.t.add(n.targets[0].id)
+                    tgt, val = n.targets[0].id, n.value
+                elif isinstance(n, ast.AnnAssign) and isinstance(n.target, ast.Name) and n.value is not None:
+                    tgt, val = n.target.id, n.value
+                if tgt is not None:
+                    if tgt not in self.t and self.derived(val):
+                        self.t.add(tgt)
+                        changed = True
+                    if tgt not in self.comp and self.complement(val):
+                        self.comp.add(tgt)
                         changed = True
 
     def derived(self, e: ast.AST) -> bool:
@@ -64,12 +73,32 @@ class ModesTaint:
             return all(self.derived(x) for x in e.elts)
         return False
 
+    def complement(self, e: ast.AST) -> bool:
+        """e = get_auxiliary_modes(d, M) / x._get_auxiliary_modes(M) / np.delete(np.arange(d), M): the ascending complement of M."""
+        if isinstance(e, ast.Name):
+            return e.id in self.comp
+        if isinstance(e, ast.Call):
+            nm = (dotted(e.func) or "").split(".")[-1]
+            if nm in ("get_auxiliary_modes", "_get_auxiliary_modes") and e.args and self.derived(e.args[-1]):
+                return True
+            if nm == "delete" and len(e.args) == 2 and isinstance(e.args[0], ast.Call) and (dotted(e.args[0].func) or "").endswith("arange") \
+                    and self.derived(e.args[1]):
+                return True
+            if nm in ORDER_KEEPING and e.args:
+                return self.complement(e.args[0])
+        return False
+
     def destroyed(self, e: ast.AST) -> Optional[str]:
-        """e = sorted(M) / np.sort(M) / np.unique(M) / set(M) [possibly wrapped in tuple/list] with M derived."""
+        """e = sorted(M) / np.sort(M) / np.unique(M) / set(M) [possibly wrapped in tuple/list] with M derived, or the
+        complement of the complement of M (which is M in ascending order)."""
         if isinstance(e, ast.Call):
             nm = (dotted(e.func) or "").split(".")[-1]
             if nm in ORDER_DESTROYING and e.args and self.derived(e.args[0]):
                 return nm
+            if nm in ("get_auxiliary_modes", "_get_auxiliary_modes") and e.args and self.complement(e.args[-1]):
+                return "complement-of-the-complement (ascending)"
+            if nm == "delete" and len(e.args) == 2 and self.complement(e.args[1]):
+                return "complement-of-the-complement (ascending)"
             if nm in ORDER_KEEPING and e.args:
                 return self.destroyed(e.args[0])
         return None
@@ -94,6 +123,7 @@ def run(ctx: Context) -> None:
     ctx.count("functions examined", n_funcs)
     ctx.require_floor("functions examined", n_funcs, 150)
     ctx.require_floor("uses of the requested mode tuple followed", n_uses, 150)
+    parallel_projections(ctx, idx, reg)
     ctx.obligation("C16a", "package|fullness-tests-order-sensitive", not any(f.rule == "C16a" for f in ctx.findings))
     ctx.obligation("C16b", "package|mode-order-kept", not any(f.rule == "C16b" for f in ctx.findings))
 
@@ -146,10 +176,34 @@ def scan_order(ctx: Context, res, roots, rule_a: str, rule_b: str) -> Tuple[int,
                 # order-sensitive fullness tests are what the rule wants; record them
                 if any(mt.derived(s) for s in sides) and any(isinstance(s, ast.Call) and "range" in norm(s) for s in sides):
                     ctx.instance(rule_a, f"{fn.qualname}|{norm(n)}", "order-sensitive", f"{ctx.relpath(fn.file)}:{n.lineno}")
+            # (a') a length-based fullness test that bypasses the mode tuple: `x if len(modes) == d else f(modes)`
+            if isinstance(n, (ast.IfExp, ast.If)):
+                t = n.test
+                if isinstance(t, ast.Compare) and len(t.ops) == 1 and isinstance(t.ops[0], (ast.Eq, ast.NotEq)):
+                    sides = [t.left, t.comparators[0]]
+                    lens = [x for x in sides if isinstance(x, ast.Call) and dotted(x.func) == "len" and x.args and mt.derived(x.args[0])]
+                    dims = [x for x in sides if (isinstance(x, ast.Attribute) and x.attr in ("d", "_d")) or (isinstance(x, ast.Name) and x.id == "d")]
+                    if lens and dims:
+                        full = (n.body if isinstance(t.ops[0], ast.Eq) else n.orelse)
+                        partial_ = (n.orelse if isinstance(t.ops[0], ast.Eq) else n.body)
+                        full_nodes = [full] if isinstance(full, ast.AST) else list(full)
+                        part_nodes = [partial_] if isinstance(partial_, ast.AST) else list(partial_)
+
+                        def uses_modes(nodes):
+                            return any(isinstance(x, ast.AST) and mt.derived(x) for b in nodes for x in ast.walk(b))
+
+                        if part_nodes and uses_modes(part_nodes) and full_nodes and not uses_modes(full_nodes):
+                            key = f"{fn.qualname}|{norm(t)}"
+                            ctx.violation(rule_a, key, fn.file, n.lineno,
+                                          f"`{norm(t)}` decides by the *number* of modes that all modes are addressed and then ignores the mode "
+                                          f"tuple on that branch: a permutation such as Q(2, 0, 1) is treated like Q(0, 1, 2), so outcomes / "
+                                          f"reduced states come out in natural mode order", norm(n).split("\n")[0][:110])
             # (b) destroyed order that is bound / passed / returned
             cand: List[Tuple[ast.AST, str]] = []
             if isinstance(n, ast.Assign):
                 cand.append((n.value, "bound to `%s`" % norm(n.targets[0])))
+            elif isinstance(n, ast.AnnAssign) and n.value is not None:
+                cand.append((n.value, "bound to `%s`" % norm(n.target)))
             elif isinstance(n, ast.Return) and n.value is not None:
                 cand.append((n.value, "returned"))
             elif isinstance(n, ast.Call):
@@ -185,6 +239,60 @@ def scan_order(ctx: Context, res, roots, rule_a: str, rule_b: str) -> Tuple[int,
                 for kw in c.keywords:
                     if kw.arg and mt.derived(kw.value) and kw.arg in t.all_params():
                         tp2.add(kw.arg)
-                if tp2:
+                if tp2 or id(t.node) not in seen:
                     work.append((t, tp2))
     return n_funcs, n_tainted_uses
+
+
+def parallel_projections(ctx: Context, idx, reg) -> None:
+    """Sibling accessors that project one mapping attribute (keys in one method, values in another) are zipped by their
+    consumers, so they must traverse the mapping in the same order: a sorted key projection next to an insertion-order
+    value projection attaches the values to the wrong modes whenever the insertions were not ascending."""
+    n = 0
+    classes = []
+    for s in reg.simulators:
+        if s.state_class is not None:
+            for c in [s.state_class] + s.state_class.mro():
+                if c not in classes:
+                    classes.append(c)
+    for c in classes:
+        kinds: Dict[str, Dict[str, List[Tuple[FuncInfo, ast.AST]]]] = {}
+        for m in c.methods.values():
+            for r in ast.walk(m.node):
+                if not isinstance(r, ast.Return) or r.value is None:
+                    continue
+                for x in ast.walk(r.value):
+                    attr = kind = None
+                    if isinstance(x, ast.Call):
+                        nm = dotted(x.func) or ""
+                        if isinstance(x.func, ast.Attribute) and x.func.attr in ("keys", "values") and isinstance(x.func.value, ast.Attribute) \
+                                and isinstance(x.func.value.value, ast.Name) and x.func.value.value.id == "self":
+                            attr, kind = x.func.value.attr, x.func.attr + "-insertion"
+                        if nm == "sorted" and x.args:
+                            a = x.args[0]
+                            if isinstance(a, ast.Call) and isinstance(a.func, ast.Attribute) and a.func.attr in ("keys",):
+                                a = a.func.value
+                            if isinstance(a, ast.Attribute) and isinstance(a.value, ast.Name) and a.value.id == "self":
+                                attr, kind = a.attr, "keys-sorted"
+                    if attr:
+                        kinds.setdefault(attr, {}).setdefault(kind, []).append((m, x))
+        for attr, ks in kinds.items():
+            # a sorted(self.A.keys()) also contains a .keys() call: drop the insertion record of the same node span
+            if "keys-sorted" in ks and "keys-insertion" in ks:
+                sorted_lines = {x.lineno for _, x in ks["keys-sorted"]}
+                ks["keys-insertion"] = [(m, x) for m, x in ks["keys-insertion"] if x.lineno not in sorted_lines]
+                if not ks["keys-insertion"]:
+                    del ks["keys-insertion"]
+            if "values-insertion" in ks or "keys-sorted" in ks:
+                n += 1
+                bad = "keys-sorted" in ks and "values-insertion" in ks
+                key = f"{c.qualname}|parallel projections of self.{attr}"
+                ctx.instance("C16b", key, "VIOLATION" if bad else "ok", kinds=sorted(ks))
+                if bad:
+                    m, x = ks["keys-sorted"][0]
+                    m2, _ = ks["values-insertion"][0]
+                    ctx.violation("C16b", key, m.file, x.lineno,
+                                  f"{c.name}.{m.name} returns the keys of self.{attr} sorted while {c.name}.{m2.name} returns its values in "
+                                  f"insertion order: consumers zip the two, so values are attached to the wrong modes when the entries were "
+                                  f"not registered in ascending mode order", norm(x))
+    ctx.count("mapping attributes with parallel key/value projections", n)
